@@ -21,7 +21,15 @@ def spaces(ctx):
         for q in small:
             if (len(p) + len(q)) % 2 == 0 or ctx.tier == "thorough":
                 out.append({"a": np.array(p), "b": np.array(q, dtype=float)})
+    # dimensions holding one value at several indices (outside C20's quantifier: only the K-units run on them, the model and the code
+    # must still agree -- both take the FIRST index of a repeated value)
+    for arr in ([4, 2, 5, 2, 1, 3], [1, 1], [1, 1, 2, 2, 3, 4, 6, 10], [3.0, 1.5, 3.0], [7, 7, 7]):
+        out.append({"a": np.array(arr)})
+    out.append({"a": np.array([2, 1, 2]), "b": np.array([0.5, 0.5, 1.0, 0.25])})
     rng = ctx.sub_rng("spaces")
+    for _ in range(8 if ctx.quick else 60):
+        sp, _ = gen.gen_space(rng, ndims=rng.choice([1, 2, 3]), sizes=(2, 3, 5, 8), max_points=None, dups=0.8)
+        out.append(sp)
     for _ in range(40 if ctx.quick else 300):
         sp, _ = gen.gen_space(rng, ndims=rng.choice([1, 2, 3, 4, 5]), sizes=(1, 2, 3, 5, 8, 13, 50) if not ctx.quick else (1, 2, 3, 5, 8, 13),
                               max_points=None)
@@ -66,6 +74,7 @@ def run(ctx, only=None):
         sp_lit = clist([clist([vs.z(x) for x in a]) for a in space.values()], lambda s: s)
         dims = [len(a) for a in space.values()]
         asc = all(list(a) == sorted(a) for a in space.values())
+        distinct = all(len(set(float(x) for x in a)) == len(a) for a in space.values())
         allpos = list(itertools.product(*[range(d) for d in dims]))
         if len(allpos) > 60:
             allpos = [tuple(rng.randrange(d) for d in dims) for _ in range(40)]
@@ -79,7 +88,7 @@ def run(ctx, only=None):
             U_p2v["lits"].append("(%s, %s, %s)" % (sp_lit, clist(p), exp))
             U_p2v["cases"].append(dict(space=jsonable(space), pos=p, impl=o))
             U_p2v["u"].count((key, p), nontrivial=len(allpos) > 1)
-            if p in allpos:
+            if p in allpos and distinct:
                 ctx.monitor_runs += 1
                 ctx.monitor_nontrivial.add((key, p))
                 val = conv.position2value(np.array(p))
@@ -155,7 +164,7 @@ def run(ctx, only=None):
                 back = outcome(lambda: {tuple(int(x) for x in k): float(v) for k, v in conv.dataframe2memory_dict(df).items()})
                 ctx.monitor_runs += 1
                 ctx.monitor_nontrivial.add((key, tuple(sorted(md))))
-                if back[0] != "ok" or back[1] != md:
+                if distinct and (back[0] != "ok" or back[1] != md):
                     ctx.violation(dict(kind="memdict-roundtrip", ascending=asc), dict(space=jsonable(space), memory_dict=jsonable(sorted(md.items())), back=jsonable(back)),
                                   "memory_dict -> dataframe -> memory_dict does not return the same keys and scores")
                 # frames with an extra column, shuffled columns, a duplicated row
